@@ -8,7 +8,7 @@
   completes exactly once, in ANY relative order (`Perm`), nothing else happens; `rest` = whatever
   the scheduler does afterwards.  No bound on anything.
 -/
-import ASV.Proofs.ParallelMain
+import ASV.Proofs.ParallelSpec
 namespace ASV.C18
 open ASV ASV.Parallel
 
@@ -103,7 +103,101 @@ theorem execute_eq_sequential (configCpus cpus : Nat) (runner : α → Except ε
   simp only [parallelExecute, h0, if_false]
   exact poolRun_complete runner commands _ (by omega) hasTimeout sched rest hc
 
+/-- **the model meets the executable spec** — the Boolean `acceptable` that the harness evaluates
+    on the real implementation's outcome — for every event list a pool can produce (`Valid`: no
+    chunk completes twice, only existing chunks): deadlines and dead workers at any point,
+    incomplete schedules, any events after completion, any cpu count including 0 and 1 -/
+theorem model_meets_spec [DecidableEq ε] [DecidableEq β] (configCpus cpus : Nat)
+    (f : α → Except ε β) (args : List α) (hasTimeout : Bool) (evs : List Event)
+    (hv : Valid (numChunks args.length (resolveCpus configCpus cpus)) evs) :
+    acceptable configCpus f args cpus hasTimeout evs
+      (parallelFunction configCpus f args cpus hasTimeout evs) = true := by
+  unfold acceptable parallelFunction
+  have hr : (if cpus = 0 then configCpus else cpus) = resolveCpus configCpus cpus := rfl
+  simp only [hr]
+  by_cases h1 : resolveCpus configCpus cpus = 1
+  · simp only [h1, if_true, sequentialOutcome, comprehension_eq_sequential]
+    cases sequential f args <;> simp
+  · by_cases h0 : resolveCpus configCpus cpus = 0
+    · simp [h0]
+    · simp only [h1, h0, if_false]
+      exact poolRun_acceptable f args _ (by omega) hasTimeout evs hv
+
+/-- the same for `parallel_execute` -/
+theorem execute_meets_spec [DecidableEq ε] (configCpus cpus : Nat) (runner : α → Except ε Int)
+    (commands : List α) (hasTimeout : Bool) (evs : List Event)
+    (hv : Valid (numChunks commands.length (resolveCpus configCpus cpus)) evs) :
+    acceptableExecute configCpus runner commands cpus hasTimeout evs
+      (parallelExecute configCpus runner commands cpus hasTimeout evs) = true := by
+  unfold acceptableExecute parallelExecute
+  have hr : (if cpus = 0 then configCpus else cpus) = resolveCpus configCpus cpus := rfl
+  simp only [hr]
+  by_cases h0 : resolveCpus configCpus cpus = 0
+  · simp [h0]
+  · simp only [h0, if_false]
+    exact poolRun_acceptable runner commands _ (by omega) hasTimeout evs hv
+
+/-- **never a shorter or reordered list**: whatever a pool does (any valid event list, complete or
+    not, interrupted or not), if `parallel_function` returns a list at all it is exactly the
+    sequential result -/
+theorem never_partial_list (configCpus cpus : Nat) (f : α → Except ε β) (args : List α)
+    (hasTimeout : Bool) (evs : List Event)
+    (hv : Valid (numChunks args.length (resolveCpus configCpus cpus)) evs)
+    (r : List (Option β))
+    (hret : parallelFunction configCpus f args cpus hasTimeout evs = .returned r) :
+    ∃ l, sequential f args = .ok l ∧ r = l.map some := by
+  classical
+  have hspec := model_meets_spec configCpus cpus f args hasTimeout evs hv
+  rw [hret] at hspec
+  unfold acceptable at hspec
+  have hr : (if cpus = 0 then configCpus else cpus) = resolveCpus configCpus cpus := rfl
+  simp only [hr] at hspec
+  by_cases h1 : resolveCpus configCpus cpus = 1
+  · simp only [h1, if_true, sequentialOutcome, beq_iff_eq] at hspec
+    cases hseq : sequential f args with
+    | ok l => rw [hseq] at hspec; cases hspec; exact ⟨l, rfl, rfl⟩
+    | error e => rw [hseq] at hspec; cases hspec
+  · by_cases h0 : resolveCpus configCpus cpus = 0
+    · simp [h0] at hspec
+    · simp only [h1, h0, if_false, poolAcceptable] at hspec
+      split at hspec
+      · simp at hspec
+      · split at hspec
+        · simp at hspec
+        · cases hseq : sequential f args with
+          | ok l => rw [hseq] at hspec; simp at hspec; exact ⟨l, rfl, hspec⟩
+          | error e => rw [hseq] at hspec; simp at hspec
+
+/-- **the process boundary**: if pickling is faithful on the arguments, results and exceptions
+    involved (unpickle ∘ pickle = identity — what the harness checks for real `Record`s), running
+    the calls in worker processes is indistinguishable from running them on the caller's objects;
+    every theorem above then holds with the boundary in place -/
+theorem faithful_pickling_invisible (pa : α → α) (pb : β → β) (pe : ε → ε)
+    (ha : ∀ a, pa a = a) (hb : ∀ b, pb b = b) (he : ∀ e, pe e = e)
+    (configCpus cpus : Nat) (f : α → Except ε β) (args : List α) (hasTimeout : Bool) (evs : List Event) :
+    parallelFunctionWire pa pb pe configCpus f args cpus hasTimeout evs =
+      parallelFunction configCpus f args cpus hasTimeout evs := by
+  have : overWire pa pb pe f = f := by
+    funext a
+    simp only [overWire, ha]
+    cases f a with
+    | ok b => simp [hb]
+    | error e => simp [he]
+  simp [parallelFunctionWire, this]
+
 /-! ### non-vacuity: concrete batches, schedules and outcomes -/
+
+/-- what the faithfulness hypothesis protects: a result type whose pickle loses information
+    (here: `pb` forgets the second component) makes the pool path differ from the sequential one -/
+example : parallelFunctionWire id (fun (p : Nat × Nat) => (p.1, 0)) id 1
+    (fun (n : Nat) => (Except.ok (n, n) : Except String (Nat × Nat))) [1, 2, 3] 2 false
+    [.done 2, .done 1, .done 0] = .returned [some (1, 0), some (2, 0), some (3, 0)] := by decide
+example : sequentialOutcome (fun (n : Nat) => (Except.ok (n, n) : Except String (Nat × Nat))) [1, 2, 3] =
+    .returned [some (1, 1), some (2, 2), some (3, 3)] := by decide
+/-- a valid but incomplete and interrupted event list -/
+example : Valid 5 [.done 4, .timeout, .done 0, .died 1] := by
+  refine ⟨by decide, by decide⟩
+
 
 /-- nine calls on two workers: chunks of two, five chunks -/
 example : numChunks 9 2 = 5 := by decide
